@@ -1,1 +1,398 @@
-/-! C12 — property theorems (none yet). -/
+import Req.Pool.Dispatch
+import Req.Pool.Tls
+import Req.Lemmas.Dispatch
+/-!
+# C12 — protocol selection and TLS configuration are honoured uniformly
+
+Theorems about `Req.Pool.Dispatch.route` (the decision of `Transport.roundTrip`) and
+`Req.Pool.TLS` (which configuration each stack reads for a new connection).
+Partial by design (DESIGN.md §6): X.509 verification, the TLS/QUIC handshakes and ALPN
+negotiation inside the libraries are parameters (`accepts`, `Net`, `negotiate`).
+-/
+namespace Req.Props.C12
+open Req.Pool.Dispatch Req.Pool.TLS Req.Lemmas.Dispatch
+
+/-! ## dispatch -/
+
+/-- **No silent fallback.** With a forced version `v`, whatever the server offers, whatever
+is cached, whatever Alt-Svc entry exists and whatever the TLS outcome: if the request is
+carried at all, it is carried by `v`. -/
+theorem forced_no_fallback (cfg : Cfg) (req : Req) (net : Net) (v w : Ver)
+    (hf : cfg.force = some v) (h : route cfg req net = .ok w) : w = v := by
+  unfold route at h
+  simp [hf] at h
+  unfold dispatch at h
+  cases v with
+  | h3 => simp [hf] at h; exact (t3_ok h).1
+  | h2 => simp [hf] at h; exact (t2_ok h).1
+  | h1 =>
+    simp [hf] at h
+    rcases h1Path_ok h with ⟨_, hv⟩ | ⟨_, st, _, hc⟩
+    · exact hv
+    · exact carry_forced_h1 hf hc
+
+example : route ⟨some .h1, true, false, false, false, [.h2, .http11]⟩ ⟨.https, false⟩
+    ⟨[.h2, .http11], true, true, true, false, .fail, true, true, true⟩ = .ok .h1 := by decide
+example : route ⟨some .h2, false, false, false, false, [.http11, .h2]⟩ ⟨.https, false⟩
+    ⟨[.http11], true, false, false, false, .fail, false, false, false⟩ = .error .h2NotNegotiated := by decide
+example : route ⟨some .h3, true, false, false, false, []⟩ ⟨.https, false⟩
+    ⟨[.h2, .http11], true, false, false, false, .fail, true, false, false⟩ = .error .h3Unreachable := by decide
+
+/-- A forced request either is carried by the forced version or fails with an error — it does
+not crash — as long as a forced h3 still has its round tripper (`EnableForceHTTP3` guarantees
+it; `DisableHTTP3` afterwards breaks it) and a custom handshake function returns a TLS conn. -/
+theorem forced_version_or_error (cfg : Cfg) (req : Req) (net : Net) (v : Ver)
+    (hf : cfg.force = some v) (h3 : v = .h3 → cfg.h3 = true)
+    (hc : cfg.handshake = true → net.custom ≠ .plain) :
+    route cfg req net = .ok v ∨ ∃ e, route cfg req net = .error e := by
+  cases hr : route cfg req net with
+  | ok w => left; rw [forced_no_fallback cfg req net v w hf hr]
+  | error e => right; exact ⟨e, rfl⟩
+  | crash =>
+    exfalso
+    unfold route at hr
+    simp [hf] at hr
+    unfold dispatch at hr
+    cases v with
+    | h3 => simp [hf] at hr; exact t3_not_crash (h3 rfl) hr
+    | h2 =>
+      simp [hf] at hr
+      unfold t2RoundTrip at hr
+      split at hr; · cases hr
+      split at hr; · cases hr
+      exact t2Dial_not_crash hc hr
+    | h1 => simp [hf] at hr; exact h1Path_not_crash hr
+
+/-- The excluded point is real: `EnableForceHTTP3()` then `DisableHTTP3()` leaves
+`forceHttpVersion = h3` with `t3 = nil`; `roundTrip` dereferences it. -/
+theorem forced_h3_without_roundtripper_crashes :
+    route ⟨some .h3, false, false, false, false, []⟩ ⟨.https, false⟩
+      ⟨[], true, true, true, false, .fail, false, false, false⟩ = .crash := by decide
+
+/-- Every setter keeps "a forced HTTP/3 has its round tripper". -/
+theorem setting_preserves_wf (supported : Bool) (c : Cfg) (s : Setting) (h : c.WF) :
+    (applySetting supported c s).WF := by
+  unfold Cfg.WF at *
+  cases s <;> simp [applySetting, enableH3] <;> try (intro hf; simp_all)
+  all_goals (repeat' split) <;> simp_all
+
+theorem settings_preserve_wf (supported : Bool) (ss : List Setting) (c : Cfg) (h : c.WF) :
+    (ss.foldl (applySetting supported) c).WF := by
+  induction ss generalizing c with
+  | nil => exact h
+  | cons s ss ih => exact ih _ (setting_preserves_wf supported c s h)
+
+/-- For every configuration reachable from `T()` through the protocol setters (any order, any
+number, clones included): a forced request is carried by the forced version or fails with an
+error — it never crashes. -/
+theorem forced_version_or_error_reachable (supported : Bool) (ss : List Setting) (req : Req) (net : Net)
+    (v : Ver) (hf : (ss.foldl (applySetting supported) initialProto).force = some v)
+    (hc : (ss.foldl (applySetting supported) initialProto).handshake = true → net.custom ≠ .plain) :
+    route (ss.foldl (applySetting supported) initialProto) req net = .ok v
+    ∨ ∃ e, route (ss.foldl (applySetting supported) initialProto) req net = .error e := by
+  have wf : (ss.foldl (applySetting supported) initialProto).WF :=
+    settings_preserve_wf supported ss initialProto (by intro h; cases h)
+  exact forced_version_or_error _ req net v hf (fun hv => wf (hv ▸ hf)) hc
+
+/-- The un-patched `DisableHTTP3` breaks the invariant (class `forced-h3-after-disable-panics`). -/
+theorem unpatched_disable_breaks_wf :
+    route ([Setting.forceH3, .disableH3].foldl (applySettingUnpatched true) initialProto) ⟨.https, false⟩
+      ⟨[.h2, .http11], true, true, true, false, .fail, false, false, false⟩ = .crash := by decide
+
+example : ([Setting.forceH3, .disableH3].foldl (applySetting true) initialProto).force = none := by decide
+example : ([Setting.enableH3, .forceH1, .clone, .forceH3].foldl (applySetting true) initialProto).force = some .h3 := by
+  decide
+
+/-- **Un-forced https uses a negotiated version.** -/
+theorem unforced_negotiated (cfg : Cfg) (req : Req) (net : Net) (v : Ver)
+    (hf : cfg.force = none) (hs : req.scheme = .https) (h : route cfg req net = .ok v) :
+    Negotiated net v := by
+  have t3neg : ∀ {w}, t3RoundTrip cfg req net = .ok w → Negotiated net w := by
+    intro w hw
+    obtain ⟨rfl, hh⟩ := t3_ok hw
+    exact hh
+  have h1neg : h1Path cfg req net = .ok v → Negotiated net v := by
+    intro hp
+    rcases h1Path_ok hp with ⟨hh, _⟩ | ⟨_, st, hst, hc⟩
+    · rw [hs] at hh; cases hh
+    · rcases carry_ok hc with ⟨rfl, _, s, rfl, hp2⟩ | ⟨rfl, hpe⟩
+      · -- h2
+        rcases dialTlsState_ok hst with ⟨hn, _⟩ | ⟨s', hs', hcu⟩ | ⟨cl, p, hs', hn, _⟩
+        · cases hn
+        · cases hs'; right; left; exact ⟨s, hcu, hp2⟩
+        · cases hs'; right; right; exact ⟨cl, by rw [hn]; simp at hp2; rw [hp2]⟩
+      · rcases dialTlsState_ok hst with ⟨_, hcu⟩ | ⟨s', hs', hcu⟩ | ⟨cl, p, hs', hn, _⟩
+        · right; left; exact hcu
+        · left
+          refine ⟨s', hcu, ?_⟩
+          subst hs'
+          intro hp2
+          cases s' with
+          | mk pr m => simp at hp2; subst hp2; simp [peerOf] at hpe
+        · right; right
+          refine ⟨cl, p, hn, ?_⟩
+          subst hs'
+          intro hp2
+          subst hp2
+          simp [peerOf] at hpe
+  unfold route at h
+  simp [hf, hs] at h
+  split at h
+  · exact t3neg h
+  · unfold dispatch at h
+    simp [hf, hs] at h
+    split at h
+    · cases h; left; assumption
+    · split at h
+      · cases h; left; simp_all
+      · exact h1neg h
+
+example : route ⟨none, false, false, false, false, [.http11, .h2]⟩ ⟨.https, false⟩
+    ⟨[.h2, .http11], true, false, false, false, .fail, false, false, false⟩ = .ok .h2 := by decide
+example : route ⟨none, false, false, false, false, [.http11, .h2]⟩ ⟨.https, false⟩
+    ⟨[.http11], true, false, false, false, .fail, false, false, false⟩ = .ok .h1 := by decide
+example : route ⟨none, true, false, false, false, [.http11, .h2]⟩ ⟨.https, false⟩
+    ⟨[.h2, .http11], true, true, true, false, .fail, false, false, true⟩ = .ok .h3 := by decide
+
+/-- **No connection without verification.** A request carried over a NEW connection (nothing
+cached, no user-supplied dial/handshake function) went through a handshake that the
+configuration in force accepted: QUIC's for HTTP/3, the TCP one otherwise. -/
+theorem new_connection_was_accepted (cfg : Cfg) (req : Req) (net : Net) (v : Ver)
+    (hs : req.scheme = .https) (hc2 : net.cachedH2 = false) (hc3 : net.cachedH3 = false)
+    (hd : cfg.dialTLS = false) (hh : cfg.handshake = false)
+    (h : route cfg req net = .ok v) :
+    (v = .h3 → net.quicAccept = true) ∧ (v ≠ .h3 → net.tcpAccept = true) := by
+  have t3c : ∀ {w}, t3RoundTrip cfg req net = .ok w → w = .h3 ∧ net.quicAccept = true := by
+    intro w hw
+    obtain ⟨rfl, hq⟩ := t3_ok hw
+    rcases hq with hq | hq
+    · rw [hc3] at hq; cases hq
+    · exact ⟨rfl, hq.2⟩
+  have h1c : h1Path cfg req net = .ok v → v ≠ .h3 ∧ net.tcpAccept = true := by
+    intro hp
+    rcases h1Path_ok hp with ⟨hh', _⟩ | ⟨_, st, hst, hc⟩
+    · rw [hs] at hh'; cases hh'
+    · have hv : v ≠ .h3 := by
+        rcases carry_ok hc with ⟨rfl, _⟩ | ⟨rfl, _⟩ <;> simp
+      refine ⟨hv, ?_⟩
+      unfold dialTlsState at hst
+      simp [hd, hh] at hst
+      split at hst
+      · cases hst
+      · split at hst
+        · cases hst
+        · simp_all
+  unfold route at h
+  split at h
+  · obtain ⟨rfl, hq⟩ := t3c h
+    exact ⟨fun _ => hq, fun hne => absurd rfl hne⟩
+  · unfold dispatch at h
+    split at h
+    · obtain ⟨rfl, hq⟩ := t3c h
+      exact ⟨fun _ => hq, fun hne => absurd rfl hne⟩
+    · have hv2 := (t2_ok h).1
+      subst hv2
+      refine ⟨fun hv => (by cases hv), fun _ => ?_⟩
+      unfold t2RoundTrip at h
+      split at h
+      · cases h
+      · simp [hc2] at h
+        exact t2Dial_ok_accept hd hh h
+    · simp [hs, hc2, hc3] at h
+      obtain ⟨hv, ha⟩ := h1c h
+      exact ⟨fun h3 => absurd h3 hv, fun _ => ha⟩
+
+example : route ⟨none, false, false, false, false, [.http11, .h2]⟩ ⟨.https, false⟩
+    ⟨[.h2, .http11], false, false, false, false, .fail, false, false, false⟩ = .error .tlsReject := by decide
+
+/-- **Plain HTTP** is carried by HTTP/1.1, or by HTTP/2 prior knowledge when h2c is enabled
+(and HTTP/2 is forced) — never by HTTP/3, whatever Alt-Svc entry exists. -/
+theorem plain_http_h1_or_h2c (cfg : Cfg) (req : Req) (net : Net) (v : Ver)
+    (hs : req.scheme = .http) (h : route cfg req net = .ok v) :
+    v = .h1 ∨ (v = .h2 ∧ cfg.allowHTTP = true ∧ cfg.force = some .h2) := by
+  unfold route at h
+  simp [hs] at h
+  unfold dispatch at h
+  split at h
+  · -- forced h3
+    unfold t3RoundTrip at h
+    simp [hs] at h
+    split at h <;> cases h
+  · rename_i hf
+    right
+    obtain ⟨hv, hsch⟩ := t2_ok h
+    refine ⟨hv, ?_, hf⟩
+    rcases hsch with h1 | ⟨_, h2⟩
+    · rw [hs] at h1; cases h1
+    · exact h2
+  · simp [hs] at h
+    unfold h1Path at h
+    simp [hs] at h
+    left; exact (speak_ok h).1
+
+example : route ⟨none, true, true, true, false, []⟩ ⟨.http, false⟩
+    ⟨[], true, true, true, false, .plain, false, false, true⟩ = .ok .h1 := by decide
+example : route ⟨some .h2, false, true, true, false, []⟩ ⟨.http, false⟩
+    ⟨[], true, false, false, true, .plain, false, false, false⟩ = .ok .h2 := by decide
+
+/-- An un-forced plain request never fails because of an Alt-Svc entry: with an HTTP/1.1
+listener it is carried by HTTP/1.1. -/
+theorem plain_http_unforced (cfg : Cfg) (req : Req) (net : Net)
+    (hs : req.scheme = .http) (hf : cfg.force = none) (hp : net.plainH2 = false) :
+    route cfg req net = .ok .h1 := by
+  unfold route dispatch h1Path speak plainPeer
+  simp [hs, hf, hp]
+
+/-- The client learns an Alt-Svc entry only from an un-forced https exchange. -/
+theorem learns_alt_only_unforced_https (cfg : Cfg) (req : Req) (v : Ver) (adv : Bool)
+    (h : learnsAlt cfg req v adv = true) : cfg.force = none ∧ req.scheme = .https ∧ cfg.h3 = true := by
+  unfold learnsAlt at h
+  simp at h
+  exact ⟨h.1.1.2, h.1.2, h.1.1.1.2⟩
+
+/-! ### the un-patched order (Alt-Svc shortcut first): where the property fails -/
+
+/-- Witness replayed by the e2e lane (class `altsvc-overrides-forced-version`): HTTP/1.1 forced,
+HTTP/3 enabled, a ready Alt-Svc entry ⇒ the request is carried by HTTP/3. -/
+theorem unpatched_forced_h1_uses_h3 :
+    routeUnpatched ⟨some .h1, true, false, false, false, [.http11, .h2]⟩ ⟨.https, false⟩
+      ⟨[.h2, .http11], true, true, true, false, .fail, false, true, true⟩ = .ok .h3 := by decide
+
+theorem unpatched_forced_h2_uses_h3 :
+    routeUnpatched ⟨some .h2, true, false, false, false, [.http11, .h2]⟩ ⟨.https, false⟩
+      ⟨[.h2, .http11], true, true, true, false, .fail, true, true, true⟩ = .ok .h3 := by decide
+
+/-- Witness (class `altsvc-breaks-plain-http`): a plain request with an Alt-Svc entry for its
+authority fails ("http3: unsupported protocol scheme") instead of using HTTP/1.1. -/
+theorem unpatched_plain_http_fails :
+    routeUnpatched ⟨none, true, false, false, false, [.http11, .h2]⟩ ⟨.http, false⟩
+      ⟨[], true, true, true, false, .fail, false, false, true⟩ = .error .unsupportedScheme := by decide
+
+/-- Away from Alt-Svc entries the two orders agree. -/
+theorem unpatched_agrees_without_alt (cfg : Cfg) (req : Req) (net : Net) (h : net.alt = false) :
+    routeUnpatched cfg req net = route cfg req net := by
+  unfold routeUnpatched route
+  simp [h]
+
+/-! ## TLS configuration source -/
+
+/-- What verification looks at in the configuration a stack builds. -/
+def verifyPart (c : TlsCfg) : VerifyCfg := c.toVerifyCfg
+
+theorem effective_verify (s : Stack) (o : Bool) (host : Nat) (r : Option TlsCfg) :
+    verifyPart (effective s o host r) = verifyPart (effective .h1 false host r) := by
+  cases r <;> cases s <;> simp [effective, verifyPart]
+
+/-- **TLS settings govern every stack identically.** If every stack's `TLSClientConfig` read
+sites resolve to the shared options (premise discharged over the regenerated table in
+`Bridge/C12.lean`), then for every verifier, every server certificate, every client
+configuration, whatever the stacks' own fields hold: the three stacks decide alike. -/
+theorem tls_uniform (sites : List Site) (h : ∀ s, source sites s = .clientOptions)
+    (accepts : VerifyCfg → ServerCert → Bool) (client : Option TlsCfg) (own : Stack → Option TlsCfg)
+    (host : Nat) (o1 o2 o3 : Bool) (cert : ServerCert) :
+    accepts (verifyPart (effective .h1 o1 host (cfgRead sites client own .h1))) cert
+      = accepts (verifyPart (effective .h2 o2 host (cfgRead sites client own .h2))) cert
+    ∧ accepts (verifyPart (effective .h2 o2 host (cfgRead sites client own .h2))) cert
+      = accepts (verifyPart (effective .h3 o3 host (cfgRead sites client own .h3))) cert := by
+  simp only [cfgRead, h]
+  rw [effective_verify .h1, effective_verify .h2, effective_verify .h3]
+  exact ⟨rfl, rfl⟩
+
+/-- The configuration in force is the client's: what each stack verifies with is what the
+setters produced, with `ServerName` defaulting to the dialled host. -/
+theorem tls_governed_by_client (sites : List Site) (h : ∀ s, source sites s = .clientOptions)
+    (client : Option TlsCfg) (own : Stack → Option TlsCfg) (host : Nat) (o : Bool) (s : Stack) (c : TlsCfg)
+    (hc : client = some c) :
+    verifyPart (effective s o host (cfgRead sites client own s))
+      = { c.toVerifyCfg with serverName := if c.serverName = 0 then host else c.serverName } := by
+  simp only [cfgRead, h, hc]
+  cases s <;> simp [effective, verifyPart]
+
+/-- Non-vacuity / necessity: with a stack-local source (the un-patched HTTP/3 dial site) the
+stacks do disagree — `EnableInsecureSkipVerify` is honoured by HTTP/1.1 and ignored by HTTP/3. -/
+theorem shadowed_source_disagrees :
+    let sites : List Site := [⟨.root, .tlsClientConfig, .sharedOptions, false⟩,
+      ⟨.http2, .tlsClientConfig, .sharedOptions, false⟩, ⟨.http3, .tlsClientConfig, .stackLocal, false⟩]
+    let client : Option TlsCfg := some { initialCfg with insecure := true }
+    let cert : ServerCert := ⟨7, [1]⟩
+    acceptsStd (verifyPart (effective .h1 false 1 (cfgRead sites client (fun _ => none) .h1))) cert = true
+    ∧ acceptsStd (verifyPart (effective .h3 false 1 (cfgRead sites client (fun _ => none) .h3))) cert = false := by
+  decide
+
+example : ∀ s, source [⟨.root, .tlsClientConfig, .sharedOptions, false⟩,
+    ⟨.http2, .tlsClientConfig, .sharedOptions, false⟩, ⟨.http3, .tlsClientConfig, .sharedOptions, false⟩] s
+    = .clientOptions := by intro s; cases s <;> decide
+
+/-- The premise of `tls_uniform` as a decidable check over a table. -/
+theorem uniformSource_iff (sites : List Site) :
+    uniformSource sites = true ↔ ∀ s, source sites s = .clientOptions := by
+  unfold uniformSource
+  constructor
+  · intro h s
+    simp at h
+    cases s
+    · exact h.1
+    · exact h.2.1
+    · exact h.2.2
+  · intro h
+    simp [h]
+
+/-- A later setter is what the next new connection of every stack reads: requests made in
+between (`use`) do not matter. -/
+theorem set_after_use (c : Option TlsCfg) (ops : List Op) :
+    run c ops = run c (ops.filter (· ≠ .use)) := by
+  induction ops generalizing c with
+  | nil => rfl
+  | cons o os ih =>
+    by_cases h : o = .use
+    · subst h; simp [run, List.foldl, step] at *; exact ih c
+    · simp [run, List.filter, h, List.foldl] at *; exact ih (step c o)
+
+example : run (some initialCfg) [.addRoot 1, .use, .insecure true, .use, .setServerName 2]
+    = some { initialCfg with roots := some [1], insecure := true, serverName := 2 } := by decide
+
+/-- `Clone` copies the values (the clone starts from the same settings). -/
+theorem clone_same_settings (c : Option TlsCfg) : step c .clone = c := rfl
+
+/-- **Clone keeps the source.** When the construction sites in `Transport.Clone` and
+`EnableHTTP3` hand each rebuilt stack the address of the clone's own options (regenerated
+wiring facts), every stack of the clone reads the clone's options object — so a setter on
+the clone governs all its stacks and none of the original's. -/
+theorem clone_keeps_source (facts : List WireSite)
+    (h2 : wireOK facts .clone .h2 = true)
+    (h3 : (wireOK facts .clone .h3 && wireOK facts .enableHTTP3 .h3) = true)
+    (w : Wiring) (fresh : Nat) :
+    (cloneWiring facts w fresh).wired
+    ∧ ∀ s o, (cloneWiring facts w fresh).optsOf s = some o → o = fresh := by
+  unfold cloneWiring Wiring.wired
+  simp [h2, h3]
+  refine ⟨?_, ?_⟩
+  · cases w.t3 <;> simp
+  · intro s o
+    cases s <;> simp [Wiring.optsOf]
+    · intro h; exact h.symm
+    · intro h; exact h.symm
+    · cases w.t3 <;> simp
+      intro h; exact h.symm
+
+theorem clone_isolated_from_original (facts : List WireSite)
+    (h2 : wireOK facts .clone .h2 = true)
+    (h3 : (wireOK facts .clone .h3 && wireOK facts .enableHTTP3 .h3) = true)
+    (w : Wiring) (hw : w.wired) (fresh : Nat) (hfresh : fresh ≠ w.own) (s s' : Stack) (o o' : Nat)
+    (ho : (cloneWiring facts w fresh).optsOf s = some o) (ho' : w.optsOf s' = some o') : o ≠ o' := by
+  have hc := (clone_keeps_source facts h2 h3 w fresh).2 s o ho
+  have : o' = w.own := by
+    cases s' <;> simp [Wiring.optsOf] at ho'
+    · exact ho'.symm
+    · rw [← ho']; exact hw.1
+    · rcases hw.2 with h | h <;> simp [h] at ho'; exact ho'.symm
+  subst hc this
+  exact hfresh
+
+/-- Necessity: a `Clone` that takes the address of the ORIGINAL's options (`&t.Options` for
+`&tt.Options`) leaves the clone's HTTP/2 stack reading the original's settings. -/
+theorem miswired_clone_reads_original :
+    (cloneWiring [⟨.clone, .h2, false⟩, ⟨.clone, .h3, true⟩, ⟨.enableHTTP3, .h3, true⟩] ⟨10, 10, some 10⟩ 20).optsOf .h2 = some 10 := by
+  decide
+
+end Req.Props.C12
